@@ -424,16 +424,16 @@ def replay(ctx, path):
     j = json.loads(Path(path).read_text())
     rep = j["replay"]
     col = Collected()
-    if rep.get("type") == "behaviour" and "behaviour" in rep:
-        drv = vlib.go_build("pooldrv")
+    if rep.get("type") == "behaviour" and rep.get("behaviour"):
+        drv = build()
         rj = replay_behaviours(ctx, col, drv, [rep["behaviour"]], rep["universe"], "one", workers=1)
         print(json.dumps(rj and rj["status"]))
     elif rep.get("type") == "behaviour":
-        drv = vlib.go_build("pooldrv")
+        drv = build()
         wit = stage_gap(ctx, col, drv)
         print(json.dumps([{k: v for k, v in s.items() if k != "st"} for s in wit]))
     elif rep.get("type") == "random":
-        drv = vlib.go_build("pooldrv", race=bool(rep.get("race")))
+        drv = build(race=bool(rep.get("race")))
         seed = j.get("seed", 1)
         ctx.seed = seed
         random_run(ctx, col, drv, "one", rep["args"], race=bool(rep.get("race")))
